@@ -298,10 +298,11 @@ def handleIO (op : String) (args : List String) (impl : Option (List String)) : 
         let k := ((if comp then (t.dropEnd 1).toString else t).toNat?).getD 0
         let it := itoks.head?.getD ""
         itoks := itoks.drop 1
-        match Reader.chunkAt c k with
+        match (if c.err then none else Reader.chunkAt c k) with     -- zck_get_chunk returns NULL on a context in error state
         | none => outs := outs.push "nochunk"
         | some ch =>
           let want := if comp then ch.compLen else ch.len
+          if want > 2^26 then outs := outs.push "toobig" else
           let (r, c') := if comp then Reader.getChunkCompData f c k want else Reader.getChunkData Sha.zckHash D f c k want
           c := c'
           outs := outs.push s!"{r.ret}:{if r.ret > 0 then PredRead.showBytes r.bytes else "-"}"
@@ -388,6 +389,10 @@ partial def loop (hin : IO.FS.Stream) (hout : IO.FS.Stream) : IO Unit := do
   | id :: op :: rest =>
     let (args, impl) := splitImpl rest
     let (out, p) ← handleIO op args impl
+    -- a crash, sanitizer abort or hang of the implementation fails every property
+    let p := match impl with
+      | some (t :: _) => if t == "CRASH" || t == "HANG" then some false else p
+      | _ => p
     hout.putStrLn s!"{id} {out} ||| {propStr p}"
   | _ => pure ()
   loop hin hout
